@@ -26,7 +26,7 @@ HOOK_COMMITS = []
 
 CHECKS["C01"] = {
     "level": "exploration",
-    "technique": "property-based testing (rapid): structured ClientHello generator -> JA3 of fingerprint.JA3Fingerprint/ja3.Bare vs an independent reference walker (pure layer), and utls handshakes through the whole proxy in a synctest bubble with the header observed at a recording backend (end-to-end layer)",
+    "technique": "property-based testing (rapid): structured ClientHello generator -> JA3 of fingerprint.JA3Fingerprint/ja3.Bare vs an independent reference walker (pure layer), and utls handshakes through the whole proxy in a synctest bubble with the header observed at a recording backend (end-to-end layer); plus the binary's default wiring (overlay)",
     "rule": "case = generated ClientHello (cipher/extension/group/point-format lists with GREASE placed first/last/middle/only, empty and singleton lists, hellos without extensions, SNI/ALPN variants) [x protocol x write segmentation x requests per connection in the e2e layer]. Non-trivial = some list has GREASE at its first or last position, or is empty or a singleton, or the hello has no extensions; distinct by hash of the record bytes (and script).",
     "level_text": "Generated-input search against an independent JA3 reference (own ClientHello walker, no tlsx/cryptobyte): tens of thousands of hello shapes per run in the pure layer and real utls handshakes end to end. Absence of a counterexample in the explored space, not a proof.",
     "level_note": "Trusted: the reference walker and JA3 string builder in harness/ref/hello (calibrated against the Salesforce examples), crypto/tls's own parser as the definition of 'accepted by the TLS stack', utls as hello producer.",
@@ -40,7 +40,7 @@ CHECKS["C01"] = {
 
 CHECKS["C02"] = {
     "level": "exploration",
-    "technique": "property-based testing (rapid): JA4 value vs an independent reference, metamorphic permutation/GREASE-insertion invariance, and shape regex, on generated ClientHellos (pure layer) and through real utls handshakes (end-to-end layer)",
+    "technique": "property-based testing (rapid): JA4 value vs an independent reference, metamorphic permutation/GREASE-insertion invariance, and shape regex, on generated ClientHellos (pure layer) and through real utls handshakes (end-to-end layer); plus the binary's default wiring (overlay)",
     "rule": "case = generated ClientHello + a variant produced by drawn JA4-preserving edits (permute ciphers, permute extensions, insert/alter GREASE in ciphers, extensions, groups, supported_versions, signature_algorithms, key_share). Non-trivial = at least two edits applied, or a list with >= 99 entries, or ALPN / signature_algorithms / supported_versions in an edge class; distinct by hash of both records.",
     "level_text": "Generated-input search with three oracles (reference value, metamorphic invariance, shape); absence of counterexamples in the explored space, not a proof.",
     "level_note": "Trusted: JA4 reference in harness/ref/hello written from the property statement (version from highest non-GREASE supported_versions, counts capped at 99, first+last ALPN character, sorted lists, sigalgs in order, GREASE ignored everywhere).",
@@ -56,7 +56,7 @@ _E2E_NOTE = "Trusted: the in-memory rig (net.Pipe listener with TCP-like address
 
 CHECKS["C05"] = {
     "level": "exploration",
-    "technique": "property-based testing (rapid): generated injector sets (default three + custom injectors yielding value/empty/error) x client requests carrying attacker values under injected names in drawn letter case, once or repeated, over HTTP/1.1, HTTP/2 (incl. CONTINUATION) and no-ALPN connections, with parsable and unparsable hellos; oracle on the header values recorded by the backend",
+    "technique": "property-based testing (rapid): generated injector sets (default three + custom injectors yielding value/empty/error) x client requests carrying attacker values under injected names in drawn letter case, once or repeated, over HTTP/1.1, HTTP/2 (incl. CONTINUATION) and no-ALPN connections, with parsable and unparsable hellos; oracle on the header values recorded by the backend; plus a burst check (several clients' first requests reach a fresh proxy at the same moment) and the binary's default wiring (overlay)",
     "rule": "case = connection (protocol, parsable/2-record hello, injector set with outcomes) + 1..3 requests with 0..12 spoofed field lines (configured names in 4 case variants, near-miss names). Non-trivial = a client value is present under a configured name whose injector yields nothing (empty or error) for that request; distinct by hash of the script.",
     "level_text": "Generated-input search with a validity oracle at the backend (values under a configured name are a subset of {proxy-computed value}, at most one, never a client value; near-miss names pass through). Absence of counterexamples in ~2.5k (quick) / 60k (thorough) connections.",
     "level_note": _E2E_NOTE,
@@ -68,7 +68,7 @@ CHECKS["C05"] = {
 
 CHECKS["C09"] = {
     "level": "exploration",
-    "technique": "property-based testing (rapid): generated peer addresses (IPv4/IPv6/IPv4-mapped), Host values, client-supplied X-Forwarded-*/Forwarded lines in drawn case, both protocols and no ALPN, PreserveHost on/off; oracle on the forwarding headers recorded by the backend",
+    "technique": "property-based testing (rapid): generated peer addresses (IPv4/IPv6/IPv4-mapped), Host values, client-supplied X-Forwarded-*/Forwarded lines in drawn case, both protocols and no ALPN, PreserveHost on/off; oracle on the forwarding headers recorded by the backend; plus concurrent clients with per-request X-Forwarded-For lists (free-running goroutines, schedule-dependent) and the binary's default wiring (overlay)",
     "rule": "case = connection (protocol, peer address, PreserveHost) + 1..3 requests with 0..5 client-supplied forwarding field lines. Non-trivial = the client sent at least one forwarding header or the connection is not HTTP/2; distinct by hash of the script.",
     "level_text": "Generated-input search with an exact oracle (last X-Forwarded-For element = peer IP after the client's list in order, X-Forwarded-Host = Host addressed, X-Forwarded-Proto = https exactly once, no Forwarded, Host per PreserveHost).",
     "level_note": _E2E_NOTE,
@@ -104,7 +104,7 @@ CHECKS["C03"] = {
 
 CHECKS["C16"] = {
     "level": "exploration",
-    "technique": "property-based testing (rapid, barrier mode under testing/synctest): generated multisets of 1..14 connections with every outcome (h2 / http/1.1 / no-ALPN served, plain HTTP on the TLS port, garbage, silent until handshake timeout, client abort or stall at a drawn byte offset of a valid session) started and finished in a drawn interleaving; requests_total gathered after every step at quiescence and compared with a model",
+    "technique": "property-based testing (rapid, barrier mode under testing/synctest): generated multisets of 1..14 connections with every outcome (h2 / http/1.1 / no-ALPN served, plain HTTP on the TLS port, garbage, silent until handshake timeout, client abort or stall at a drawn byte offset of a valid session) started and finished in a drawn interleaving; requests_total gathered after every step at quiescence and compared with a model; plus the registry wiring of the binary (overlay) and a wedge watch that reports a connection whose goroutine waits for ever on a fingerproxy mutex",
     "rule": "case = connection plans + step order (start i / finish i / sleep past the handshake timeout). Non-trivial = at least three distinct outcomes including one failed (ok=0) connection and one client abort; distinct by hash of the script.",
     "level_text": "Generated histories with an exact model: after every step the metric equals, per label set, the number of connections the proxy has ended so far (labels as the client observed them), never decreases, and at the end sums to the number of accepted connections.",
     "level_note": _E2E_NOTE + " 'Ended' is taken as 'the proxy closed its side of the connection' (see DESIGN §6); whether it closes in the right situations is C11's subject.",
@@ -128,7 +128,7 @@ CHECKS["C11"] = {
 
 CHECKS["C17"] = {
     "level": "exploration",
-    "technique": "property-based testing (rapid under testing/synctest fake time): generated workloads at the instant of cancellation (connections stalled mid-handshake, silent, idle keep-alive HTTP/1.1, handshake done but no request, HTTP/1.1 exchange in flight in a slow handler, idle and busy HTTP/2) x trigger (cancel, cancel twice, cancelled before Serve, net/http server stopping on its own) x connection attempts at drawn times after the cancel; oracle on Serve's return value and fake-time latency, listener state, backend log",
+    "technique": "property-based testing (rapid under testing/synctest fake time): generated workloads at the instant of cancellation (connections stalled mid-handshake, silent, idle keep-alive HTTP/1.1, handshake done but no request, HTTP/1.1 exchange in flight in a slow handler, idle and busy HTTP/2) x trigger (cancel, cancel twice, cancelled before Serve, net/http server stopping on its own) x connection attempts at drawn times after the cancel; oracle on Serve's return value and fake-time latency, listener state, backend log; plus generated SIGINT/SIGTERM sequences against Run() itself in a child process (real sockets, real time, generous bounds)",
     "rule": "case = workload + trigger + in-flight duration + post-cancel attempt times. Non-trivial = at least one HTTP/1.1 exchange in flight or one connection mid-handshake at the cancel; distinct by hash of the script.",
     "level_text": "Generated schedules with barriers: Serve returns http.ErrServerClosed, not before a genuinely in-flight HTTP/1.1 exchange ends and within 2 s after it (10 s when there is none), listener closed, no post-cancel attempt served, idle/new/mid-handshake HTTP/1.1 connections closed.",
     "level_note": _E2E_NOTE + " Schedule points are those reachable by quiescence barriers and fake-time sleeps, not arbitrary instruction interleavings; the pause-point variant (cancel between handshake and hand-over) lives in C11's c11.pause-cancel.",
@@ -151,7 +151,7 @@ CHECKS["C10"] = {
 
 CHECKS["C20"] = {
     "level": "exploration",
-    "technique": "model-based property testing (rapid) in package http2 via go test -overlay: generated open/close/adjust/push/pop/window/max-frame histories for the round-robin, random and priority schedulers (priority: MaxClosed/MaxIdle in {0,1,2,10}, throttle on/off) against a list-based reference scheduler; structural invariant of the priority tree after every operation; final drain with open windows",
+    "technique": "model-based property testing (rapid) in package http2 via go test -overlay: generated open/close/adjust/push/pop/window/max-frame histories for the round-robin, random and priority schedulers (priority: MaxClosed/MaxIdle in {0,1,2,10}, throttle on/off) against a list-based reference scheduler; structural invariant of the priority tree after every operation; final drain with open windows; plus long runs (millions of frames) against counter overflow",
     "rule": "case = scheduler configuration + 1..60 operations permitted by the WriteScheduler interface. Non-trivial = the history closes a stream that still has frames queued, drives a stream or connection window to <= 0 and (priority scheduler) contains an exclusive or self-dependent adjust; distinct by hash of the operation list.",
     "level_text": "Generated histories against a reference: every queued frame is popped exactly once unless its stream was closed, per-stream order, control frames first, DATA pieces within stream window / connection window / max frame size and debited exactly, Pop()==false only when nothing is sendable, and the priority tree stays a tree rooted at stream 0 with consistent links, byte sums and retention caps.",
     "level_note": "Trusted: the reference model in overlay/http2/sched_test.go (per-stream FIFO lists, control list, window integers). Only calls the interface permits are generated (no double open, no HEADERS/DATA on a stream that is not open, client streams opened in increasing id order).",
@@ -174,7 +174,7 @@ CHECKS["C18"] = {
 
 CHECKS["C19"] = {
     "level": "exploration",
-    "technique": "property-based testing (rapid) + native go fuzzing of http2.Framer: (1) generated sequences of Write* calls over boundary parameters -> bytes compared with an independent RFC 7540 serialiser and read back through ReadFrame against an independent parser; (2) byte streams from a frame grammar with injected defects, raw bytes, truncation and drawn read limits -> accept/reject, parsed fields and error codes compared with the reference; (3) header blocks cut into HEADERS+CONTINUATION chains read back with ReadMetaHeaders; (4) illegal Write* parameters are refused without AllowIllegalWrites",
+    "technique": "property-based testing (rapid) + native go fuzzing of http2.Framer: (1) generated sequences of Write* calls over boundary parameters -> bytes compared with an independent RFC 7540 serialiser and read back through ReadFrame against an independent parser; (2) byte streams from a frame grammar with injected defects, raw bytes, truncation and drawn read limits -> accept/reject, parsed fields and error codes compared with the reference; (3) header blocks cut into HEADERS+CONTINUATION chains read back with ReadMetaHeaders; (4) illegal Write* parameters are refused without AllowIllegalWrites; plus header-block sequences through one ReadMetaHeaders decoder and arbitrary frame streams through a ReadMetaHeaders framer",
     "rule": "read: case = 1..5 frames (all ten types and unknown types; wrong fixed lengths, stream 0 where forbidden and vice versa, pad >= length, zero increments, reserved bit set, HEADERS/CONTINUATION chains incl. wrong stream, frames above the limit, truncation) + read limit; non-trivial = contains a malformed frame or one above the limit. write: case = 1..8 Write* calls; non-trivial = a padded or priority-carrying frame or a CONTINUATION chain. Distinct by hash of the bytes/script.",
     "level_text": "Generated-input search against an independent frame codec (harness/ref/frameref): no panic, never a frame above the read limit, every malformed frame rejected with a ConnectionError/StreamError whose code is in the set RFC 7540 assigns (escalation to a connection error admitted), every legal frame accepted with identical fields, written bytes identical to the RFC serialisation.",
     "level_note": "Trusted: harness/ref/frameref (about 300 lines). PUSH_PROMISE chains (PUSH_PROMISE without END_HEADERS followed by CONTINUATION) are generated but not judged: the reader tracks HEADERS chains only, and the statement speaks of HEADERS/CONTINUATION interleavings.",
@@ -231,7 +231,7 @@ CHECKS["C14"] = {
 
 CHECKS["C12"] = {
     "level": "exploration",
-    "technique": "model-based property testing (rapid under testing/synctest) with a peer-side window ledger: a raw HTTP/2 peer (x/net v0.19.0 framer) drives the fork's http2.Server.ServeConn (downloads of 0..1 MiB in drawn chunks on up to 8 streams, uploads with padded/unpadded DATA against handlers that read all / some / nothing / close early, WINDOW_UPDATE on streams and connection incl. overflow attempts, SETTINGS_INITIAL_WINDOW_SIZE from 0 to 2^31-1 incl. changes that drive open windows negative, SETTINGS_MAX_FRAME_SIZE, RST_STREAM mid-body) and, mirrored, the fork's Transport.NewClientConn (uploads, responses read fully / partly / cancelled); every step ends at quiescence and every DATA / WINDOW_UPDATE / RST_STREAM / GOAWAY frame is judged against the ledger",
+    "technique": "model-based property testing (rapid under testing/synctest) with a peer-side window ledger: a raw HTTP/2 peer (x/net v0.19.0 framer) drives the fork's http2.Server.ServeConn (downloads of 0..1 MiB in drawn chunks on up to 8 streams, uploads with padded/unpadded DATA against handlers that read all / some / nothing / close early, WINDOW_UPDATE on streams and connection incl. overflow attempts, SETTINGS_INITIAL_WINDOW_SIZE from 0 to 2^31-1 incl. changes that drive open windows negative, SETTINGS_MAX_FRAME_SIZE, RST_STREAM mid-body) and, mirrored, the fork's Transport.NewClientConn (uploads, responses read fully / partly / cancelled); every step ends at quiescence and every DATA / WINDOW_UPDATE / RST_STREAM / GOAWAY frame is judged against the ledger; the server ledger also runs built with a serve-loop yield mapped in by go build -overlay (select order among simultaneously pending events is drawn), with clients that stop reading, stream errors on uploads and graceful GOAWAY",
     "rule": "case = operation history on one connection. Non-trivial = a window reaches <= 0 with data still queued (and later reopens), or a stream is reset mid-body, or INITIAL_WINDOW_SIZE changes with streams open; distinct by hash of the history.",
     "level_text": "Generated histories with an exact ledger: DATA never above stream window, connection window or the max frame size in force (settings switch at the SETTINGS ACK); at quiescence nothing deliverable is left undelivered; bodies arrive complete and unaltered once windows open; a window pushed above 2^31-1 or DATA beyond the advertised window draws a FLOW_CONTROL_ERROR; un-returned connection credit never exceeds unread bytes held by live handlers + 4096.",
     "level_note": "Trusted: the ledger in harness/c12 (RFC 9113 section 5.2/6.9), x/net v0.19.0 framer as the peer's codec, testing/synctest quiescence. The harness owns the schedule: steps are separated by quiescence, so interleavings of whole steps are explored, not instruction-level races.",
@@ -243,7 +243,7 @@ CHECKS["C12"] = {
 
 CHECKS["C13"] = {
     "level": "exploration",
-    "technique": "model-based property testing (rapid under testing/synctest): a generated client frame script (HEADERS on new / skipped / lower / even / zero / open / half-closed / closed streams, well-formed and eleven kinds of malformed header blocks, CONTINUATION chains incl. interrupted and stray ones, DATA incl. padded / padding-only / bad padding on every stream state, RST_STREAM, WINDOW_UPDATE, PRIORITY incl. self-dependency and bad length, SETTINGS valid and invalid, PING, PUSH_PROMISE, GOAWAY, unknown types, handler release) is played by a raw peer against the fork's http2.Server.ServeConn with MaxConcurrentStreams 1..3 and finish / hang / read-body handlers; after every frame (quiescence) the server's frames and the handler log are compared with the set of reactions a reference model of RFC 9113 section 5.1 admits",
+    "technique": "model-based property testing (rapid under testing/synctest): a generated client frame script (HEADERS on new / skipped / lower / even / zero / open / half-closed / closed streams, well-formed and eleven kinds of malformed header blocks, CONTINUATION chains incl. interrupted and stray ones, DATA incl. padded / padding-only / bad padding on every stream state, RST_STREAM, WINDOW_UPDATE, PRIORITY incl. self-dependency and bad length, SETTINGS valid and invalid, PING, PUSH_PROMISE, GOAWAY, unknown types, handler release) is played by a raw peer against the fork's http2.Server.ServeConn with MaxConcurrentStreams 1..3 and finish / hang / read-body handlers; after every frame (quiescence) the server's frames and the handler log are compared with the set of reactions a reference model of RFC 9113 section 5.1 admits; the model also runs with the serve-loop yield, and a slot-reuse check opens the next request at the advertised concurrency limit without waiting for quiescence",
     "rule": "case = advertised limit + 1..28 client frames (at most one connection-level protocol violation, as the last frame). Non-trivial = the script contains an illegal frame and a handled request, or reaches the concurrency limit, or uses CONTINUATION; distinct by hash of the script.",
     "level_text": "Generated histories against a reference model: a handler starts only for a complete, well-formed header block on a new, odd, strictly increasing stream id within the advertised limit, and exactly once; legal frames draw no RST_STREAM/GOAWAY; illegal frames draw an error from the admissible set (escalation to a connection error admitted, hardening reactions admitted as 'any connection error'); GOAWAY's last-stream-id covers every handled request; after an error GOAWAY no handler starts and the connection closes within 2 s of fake time; PING and SETTINGS are acknowledged.",
     "level_note": "Trusted: the model in harness/c13 (admissible sets per (state, frame), DESIGN Appendix A, corrected in section 6 where it proved stricter than the RFC). Where the RFC leaves the reaction open (frames on a stream the server itself reset, connection-specific header fields) the whole set is admitted.",
